@@ -2,6 +2,7 @@ package checks
 
 import (
 	"fmt"
+	"go/token"
 	"regexp"
 	"sort"
 	"strings"
@@ -437,6 +438,48 @@ func checkC19(c *Ctx) *report.Result {
 		}
 		r.Ob("S-seq", len(bad) == 0, "per-clock routine keeps the sequencer phase (512 step values x 8 clock-counter values)", firstPos(c, clockFn), detail)
 		r.Instances["S-seq"] += n
+		// ... and the clock counter itself keeps its phase modulo 8192 wherever the routine compares it with a constant
+		// (its wrap): from k-1, k and k+1 the value left for the next clock is congruent to value+1, so that two
+		// sequencer calls are always 8192 clocks apart - a wrap that swallows or repeats a residue shifts every
+		// length period that spans it
+		{
+			var consts []int64
+			for _, b := range clockFn.Blocks {
+				for _, ins := range b.Instrs {
+					bo, ok := ins.(*ssa.BinOp)
+					if !ok {
+						continue
+					}
+					switch bo.Op {
+					case token.EQL, token.NEQ, token.LSS, token.LEQ, token.GTR, token.GEQ:
+					default:
+						continue
+					}
+					if k, ok := bo.Y.(*ssa.Const); ok && k.Value != nil && strings.Contains(exprString(bo.X), strings.TrimPrefix(clockField, ".")) && !strings.Contains(exprString(bo.X), "%") {
+						consts = append(consts, k.Int64())
+					}
+				}
+			}
+			var badP []string
+			np := 0
+			for _, k := range consts {
+				for _, v := range []int64{k - 1, k, k + 1} {
+					if v < 0 {
+						continue
+					}
+					np++
+					ev := c.evalCall(nil, clockFn, []ai.Value{ptrTo(aObj)}, nil, func(st *ai.State) {
+						st.SetCell(aObj, clockField, ai.NewConstInt(c.widthOf(aObj, clockField), false, v))
+					})
+					next, isc := constOf(c.cellInt(ev.Post, aObj, clockField))
+					if !(isc && ((next-(v+1))%8192+8192)%8192 == 0) && len(badP) < 4 {
+						badP = append(badP, fmt.Sprintf("clock counter %d -> %s: the phase (counter mod 8192) does not advance by one", v, ai.ValueString(c.cellInt(ev.Post, aObj, clockField))))
+					}
+				}
+			}
+			r.Ob("S-seq", len(badP) == 0 && np > 0, "the clock counter keeps its phase modulo 8192 across the constants it is compared with", firstPos(c, clockFn), fmt.Sprintf("constants %v; %s", consts, strings.Join(badP, "; ")))
+			r.Instances["S-seq"] += np
+		}
 	} else {
 		r.Fail("unresolved", "S-seq", "per-clock routine / clock counter", "", "not identified")
 	}
@@ -490,6 +533,56 @@ func checkC19(c *Ctx) *report.Result {
 		}
 	} else {
 		r.Fail("unresolved", "S-sweep", "sweep routine", firstPos(c, seqFn), "steps 2/6 do not add exactly one routine")
+	}
+
+	// ---- S-neg: leaving negate mode after a calculation in negate mode (documented DMG behaviour, the one cause the
+	// NR10 handler has for touching the status): found by role - the boolean of channel 1 that the NR10 write consults
+	r.Rule("S-neg", "NR10: a write with bit 3 set leaves the status alone; a write with bit 3 clear turns channel 1 off iff a sweep calculation was made in negate mode since (one flag, set by the sweep step in negate mode, cleared by every NR10 write), and leaves it alone otherwise")
+	{
+		var es ai.Sym
+		base := func(st *ai.State) {
+			powerOn(st)
+			es = it.SymFor(chObjs[0], enPath[0])
+			st.SetCell(chObjs[0], enPath[0], ai.NewSymBool(es))
+		}
+		unchanged := func(b *ai.Bool) bool { return b != nil && b.B.K == ai.BSrc && b.B.S == es && !b.B.Neg }
+		probe := c.evalDecoder(true, 0xFF10, 0xFF10, base, vWith(map[int]bool{3: false}))
+		var flag *ai.CellKey
+		nflag := 0
+		for _, kc := range c.boolCellsLoaded(probe) {
+			kc := kc
+			if !groups[0][kc.Obj] || (kc.Obj == chObjs[0].ID && kc.Path == enPath[0]) || (kc.Obj == pObj.ID && kc.Path == pPath) {
+				continue
+			}
+			o := it.ObjectByIDFast(kc.Obj)
+			on := c.evalDecoder(true, 0xFF10, 0xFF10, func(st *ai.State) { base(st); st.SetCell(o, kc.Path, ai.NewConstBool(true)) }, vWith(map[int]bool{3: false}))
+			off := c.evalDecoder(true, 0xFF10, 0xFF10, func(st *ai.State) { base(st); st.SetCell(o, kc.Path, ai.NewConstBool(false)) }, vWith(map[int]bool{3: false}))
+			if isConstB(enabledAfter(on.Post, 0), false) && unchanged(enabledAfter(off.Post, 0)) {
+				flag = &kc
+				nflag++
+			}
+		}
+		r.Ob("S-neg", nflag == 1, "NR10 with bit 3 clear: channel 1 goes off exactly when the negate-calculation flag is set", hpos(probe), fmt.Sprintf("%d boolean cells of channel 1 act as that flag (status off when set, unchanged when clear); documented: one", nflag))
+		stay := c.evalDecoder(true, 0xFF10, 0xFF10, base, vWith(map[int]bool{3: true}))
+		r.Ob("S-neg", unchanged(enabledAfter(stay.Post, 0)), "NR10 with bit 3 set leaves the status alone", hpos(stay), "status after: "+ai.ValueString(enabledAfter(stay.Post, 0)))
+		if nflag == 1 {
+			fo := it.ObjectByIDFast(flag.Obj)
+			for _, b3 := range []bool{false, true} {
+				w := c.evalDecoder(true, 0xFF10, 0xFF10, base, vWith(map[int]bool{3: b3}))
+				r.Ob("S-neg", isConstB(c.cellBool(w.Post, fo, flag.Path), false), fmt.Sprintf("NR10 write (bit 3 = %v) clears the flag", b3), hpos(w), "flag after: "+ai.ValueString(c.cellBool(w.Post, fo, flag.Path)))
+			}
+			if extra := minusCalls(stepCalls[2], stepCalls[0]); len(extra) == 1 {
+				ev := c.evalCall(nil, extra[0].Fn, []ai.Value{ptrTo(chObjs[0])}, nil, func(st *ai.State) {
+					c.setGroupCell(st, groups[0], "sweepShift", ai.NewConstInt(8, false, 1))
+					c.setGroupCell(st, groups[0], "sweepIncrease", ai.NewConstBool(false))
+					c.setGroupCell(st, groups[0], "sweepEnabled", ai.NewConstBool(true))
+					c.setGroupCell(st, groups[0], "sweepTimer", ai.NewConstInt(8, false, 1))
+					c.setGroupCell(st, groups[0], "sweepPeriod", ai.NewConstInt(8, false, 1))
+					st.SetCell(fo, flag.Path, ai.NewConstBool(false))
+				})
+				r.Ob("S-neg", isConstB(c.cellBool(ev.Post, fo, flag.Path), true), "a sweep step that calculates in negate mode sets the flag", firstPos(c, extra[0].Fn), "flag after: "+ai.ValueString(c.cellBool(ev.Post, fo, flag.Path)))
+			}
+		}
 	}
 
 	// ---- S-length
